@@ -58,6 +58,7 @@ type scenario struct {
 }
 
 type hist struct {
+	bad   string
 	clock int64
 	ops   []porcupine.Operation
 	enq   []uint32
@@ -84,6 +85,36 @@ func (h *hist) dequeue(client int, a *agent.Agent) {
 	h.got = append(h.got, ids...)
 }
 
+// enqueueOp queues a task the way an operator does (DispatchEvent -> TaskPrepare ->
+// AddJobToQueue); dequeueHTTP is a real check-in through the listener, the response
+// decoded the way the Demon reads it.
+func (h *hist) enqueueOp(client int, ts *seam.TS, id uint32) {
+	c := h.tick()
+	ts.Task(idD, fmt.Sprintf("%08x", id), agent.COMMAND_SLEEP, map[string]any{"Arguments": "5;10"})
+	h.ops = append(h.ops, porcupine.Operation{ClientId: client, Input: qin{Enq: true, ID: id}, Call: c, Output: qout{}, Return: h.tick()})
+	h.enq = append(h.enq, id)
+}
+
+func (h *hist) dequeueHTTP(client int, ts *seam.TS) string {
+	c := h.tick()
+	res, tasks, err := ts.CheckIn(idD, 1)
+	if res.Panic != nil {
+		return fmt.Sprintf("panic: %v @ %s", res.Panic, res.Stack)
+	}
+	if res.Status != 200 || err != nil {
+		return fmt.Sprintf("check-in failed: status=%d err=%v", res.Status, err)
+	}
+	var ids []uint32
+	for _, t := range tasks {
+		if t.Cmd != 10 { // COMMAND_NOJOB
+			ids = append(ids, t.ReqID)
+		}
+	}
+	h.ops = append(h.ops, porcupine.Operation{ClientId: client, Input: qin{}, Call: c, Output: qout{IDs: ids}, Return: h.tick()})
+	h.got = append(h.got, ids...)
+	return ""
+}
+
 func scenarios() []scenario {
 	return []scenario{
 		{name: "operator(2 enq) | relay(1 enq) | listener(2 check-ins)", build: func(s *vsched.Sched, h *hist, a *agent.Agent, _ *seam.TS) {
@@ -96,6 +127,19 @@ func scenarios() []scenario {
 			s.Spawn("operator", func() { h.enqueue(0, a, 1) })
 			s.Spawn("relay", func() { h.enqueue(1, a, 3) })
 			s.Spawn("listener", func() { h.dequeue(2, a) })
+		}},
+		{name: "real entry points: operator DispatchEvent(2 tasks) | relay AddJobToQueue | listener 2 HTTP check-ins", viaTS: true, build: func(s *vsched.Sched, h *hist, a *agent.Agent, ts *seam.TS) {
+			s.Spawn("operator", func() { h.enqueueOp(0, ts, 1); h.enqueueOp(0, ts, 2) })
+			s.Spawn("relay", func() { h.enqueue(1, a, 3) })
+			s.Spawn("listener", func() {
+				if bad := h.dequeueHTTP(2, ts); bad != "" {
+					h.bad = bad
+					return
+				}
+				if bad := h.dequeueHTTP(2, ts); bad != "" {
+					h.bad = bad
+				}
+			})
 		}},
 	}
 }
@@ -118,8 +162,14 @@ func runSchedules(r *ev.Run) {
 		t.Run(func(c *explore.Chooser) {
 			a := &agent.Agent{NameID: "0000d001", Info: &agent.AgentInfo{}}
 			h := &hist{}
-			s := vsched.New(c, 2000, "JobQueue", "Tasks", "sync.Mutex")
-			sc.build(s, h, a, nil)
+			var ts *seam.TS
+			if sc.viaTS {
+				ts = seam.New(seam.Options{})
+				defer ts.Close()
+				a = ts.MustRegister(idD, 1)
+			}
+			s := vsched.New(c, 20000, "JobQueue", "Tasks", "sync.Mutex")
+			sc.build(s, h, a, ts)
 			s.Run()
 			var rest []uint32
 			for _, j := range a.JobQueue {
@@ -131,6 +181,8 @@ func runSchedules(r *ev.Run) {
 				return map[string]any{"scenario": sc.name, "choices": c.Choices(), "schedule": s.Trace, "delivered": h.got, "remaining": rest, "enqueued": h.enq}
 			}
 			switch {
+			case h.bad != "":
+				r.Violate("sched/check-in-failed", h.bad, detail())
 			case len(s.Panics) > 0:
 				r.Violate("sched/panic/"+ev.Normalize(strings.SplitN(s.Panics[0], " @ ", 2)[1]), "concurrent enqueue/check-in panics: "+s.Panics[0], detail())
 			case s.Deadlock:
